@@ -1,6 +1,11 @@
 """Per-harness options (solver schedule, axiom groups, stretch obligations, fixed validation vectors)."""
 OPTS = {
     'C02': {},
+    'C13': {'*': {'mixed_int': True, 'feas_solver': 'cvc5', 'abstract_first': False},
+            'c13_fp_deg_f64': {'mode': 'FP', 'abstract_first': False}, 'c13_fp_rad_f64': {'mode': 'FP', 'abstract_first': False},
+            'c13_fp_deg_f32': {'mode': 'FP', 'abstract_first': False}, 'c13_fp_rad_f32': {'mode': 'FP', 'abstract_first': False},
+            'c13_err_f64': {'mode': 'ERR', 'abstract_first': False}, 'c13_err_f32': {'mode': 'ERR', 'abstract_first': False},
+'c13_convert': {'pi_symbolic': True, 'mixed_int': False, 'feas_solver': 'z3', 'abstract_first': True}, 'c13_inverse_ranges': {'pi_symbolic': True, 'mixed_int': False, 'feas_solver': 'z3', 'abstract_first': True}, 'c13_trig': {'pi_symbolic': True, 'mixed_int': False, 'feas_solver': 'z3', 'abstract_first': True}, 'c13_inverse_trig': {'pi_symbolic': True, 'mixed_int': False, 'feas_solver': 'z3', 'abstract_first': True}},
     'C07': {'*': {'pi_symbolic': True}},
     'C15': {'*': {'pi_symbolic': True, 'feas_timeout': 1},
             'c15_from_arc_parallel_tolerance': {'pi_symbolic': True, 'feas_timeout': 1, 'vectors': [[1.0, 0.0, 0.0, 2.0, 0.0, 0.0], [1.0, 0.0, 0.0, -1.0, 0.0, 0.0], [0.5, 0.25, 0.0, 1.0, 0.5, 0.0]]}},
